@@ -425,7 +425,8 @@ def h_epilogue(H):
 def _reader_factory(fs_):
     def mk(it_, a, k):
         p = a[0]
-        return SObj(spikeglx.Reader, file_bin=p, file_meta_data=p.with_suffix(".meta"), meta={"typeThis": "imec", "imSampRate": 30000.0, "nSavedChans": 97.0}, dtype=np.dtype("int16"), _raw=None)
+        return SObj(spikeglx.Reader, file_bin=p, file_meta_data=p.with_suffix(".meta"), meta={"typeThis": "imec", "imSampRate": 30000.0, "nSavedChans": 97.0}, dtype=np.dtype("int16"), _raw=None,
+                    opened_with_sort=k.get("sort", a[2] if len(a) > 2 else True))
     return mk
 
 
@@ -494,7 +495,7 @@ def h_np21(H):
             fs_, conv, ap, napch = mk_conv(it, version="NP2.1")
             C02.install_mtscomp(it, fs_)
             it.session.contracts[spikeglx.Reader] = _reader_factory(fs_)
-            conv.attrs["sr"] = _reader_factory(fs_)(it, [ap], {})
+            conv.attrs["sr"] = _reader_factory(fs_)(it, [ap], {"sort": False})          # as __init__ opens it: channels in acquisition order
             lf = ap.parent.joinpath(ap.name.replace("ap", "lf"))
             fs_.exists[lf.key] = True
             fs_.content[lf.key] = z3.Const("lfbytes", C02.Bytes)
@@ -518,6 +519,11 @@ def h_np21(H):
             ren = [i for i, op in enumerate(fs_.log) if op[0] == "rename" and op[2] == cb.key]
             it.ctx.oblige(f"np21.unlink_after_compress.{tag}", z3.BoolVal(not unl or (ren and ren[0] < unl[0])), "post", "the original is unlinked only after its .cbin has been published")
             it.ctx.oblige(f"np21.no_unexpected_exception.{tag}", z3.BoolVal(failed is None or isinstance(failed, RuntimeError)), "post")
+            if failed is None:
+                sr2 = conv.attrs.get("sr")
+                it.ctx.oblige(f"np21.reader_kept_reads_as_before.{tag}", z3.BoolVal(isinstance(sr2, SObj) and sr2.attrs.get("opened_with_sort") is False and sr2.attrs.get("file_bin") == cb), "post",
+                              "idempotent over run histories: the reader the converter keeps for a later (forced) run is re-opened on the compressed original the way __init__ opened it - "
+                              "channels in acquisition order - so that a re-run on the same object extracts the same LF stream")
         S.explore(body)
 
 
@@ -828,6 +834,25 @@ def b_native(B):
             D = np.frombuffer(orig, dtype=np.int16).reshape(3007, 385)
             full = full and a.size == 3007 * len(inf["chns"]) and np.array_equal(a.reshape(3007, -1), D[:, inf["chns"]])
         B.case("odd_length_deleted_only_when_complete", r == 1 and (full or os.path.exists(ap)), detail={"returned": r, "samples_per_shank_file": lens, "original_exists": os.path.exists(ap)}, inputs={"kind": "odd_length"})
+    finally:
+        shutil.rmtree(d, ignore_errors=True)
+    # NP2.1, one converter object run, then forced again (the original has become a .cbin in between): the second LF stream equals the first
+    d, ap, orig = _mk("NP2.1")
+    try:
+        conv = neuropixel.NP2Converter(ap)
+        conv.init_params(nwindow=1200)
+        r1 = conv.process()
+        s1 = spikeglx.Reader(conv.shank_info["shank0"]["lf_file"], sort=False)
+        lf1 = s1[:, :].copy()
+        s1.close()
+        r2 = conv.process(overwrite=True)
+        s2 = spikeglx.Reader(conv.shank_info["shank0"]["lf_file"], sort=False)
+        lf2 = s2[:, :].copy()
+        s2.close()
+        conv.sr.close()
+        same = lf1.shape == lf2.shape and np.array_equal(lf1, lf2)
+        B.case("np21_same_object_forced_rerun", r1 == 1 and r2 == 1 and same, detail={"returned": [r1, r2], "lf_shapes": [list(lf1.shape), list(lf2.shape)],
+               "columns_that_differ": np.flatnonzero(np.any(lf1 != lf2, axis=0))[:8].tolist() if lf1.shape == lf2.shape else None}, inputs={"kind": "np21_same_object_forced_rerun"})
     finally:
         shutil.rmtree(d, ignore_errors=True)
     for kind in ("NP2.1", "NP1", "NPultra"):
